@@ -1,7 +1,9 @@
 (* Extraction of the C14 emitter state machine (ExtrOcamlBasic only; numbers stay Coq's positive/Z datatypes). *)
 From Coq Require Extraction ExtrOcamlBasic.
 From Verif Require Import EmitState.EmitStateModel EmitState.EncPathModel.
+From VerifGen Require Import C14MemPathModel.
 Extraction Blacklist List String Int.
 Extraction "emitstate.ml" EmitStateModel.step EmitStateModel.init_state EmitStateModel.model_constants
-  EmitStateModel.failed EmitStateModel.prune EmitStateModel.run EmitStateModel.persistent
-  EncPathModel.rel_cmd EncPathModel.path_constants EncPathModel.rel_result.
+  EmitStateModel.failed EmitStateModel.prune EmitStateModel.run EmitStateModel.persistent EmitStateModel.node_active_mark
+  EncPathModel.rel_cmd EncPathModel.path_constants EncPathModel.rel_result
+  C14MemPathModel.mem_cmd C14MemPathModel.mem_path_constants C14MemPathModel.x86_add_mem.
